@@ -7,6 +7,10 @@ CLAIMED = {
    text='Unbounded Coq theorems (any order, dims, ranks; commutative ring with involution) for the TT value semantics: sum, difference, scalar multiple, operator product, (conjugate) transpose, conjugate, copy, constructors, column sums; tied to /repo by exact differential execution of the Gallina model against TT methods on integer-valued real/complex inputs, plus a float side check against an einsum oracle used to search for failing inputs.',
    note='Trusted: Coq kernel + vm_compute; the Python harness (generators, literal printer); NumPy reshape/transposition semantics are modelled and observed, not proved; rounding not modelled; norm(p=2) and residual_error are decided under C03-style oracle models only numerically here.',
    technique='Coq proof over generic ring (chain/Kronecker induction) + exact model-vs-code correspondence', design='6 C01'),
+ 'C03': dict(
+   text='Unbounded Coq theorems for ortho_left/ortho_right/ortho as factorise-and-push sweeps over an SVD oracle: value preservation (any start/end), isometry of processed cores, no rank increase, frame, consistency; tied to /repo by oracle-tape differential execution (the model must hand the SVD the same matrices and return the same cores/ranks for arbitrary and for exact answers), plus a float side check (value, Gram matrices, ranks, frame).',
+   note='Trusted: Coq kernel + vm_compute; harness incl. the scipy.linalg.svd patching layer; LAPACK is assumed to meet the svd_spec conjuncts each theorem names (value / orthonormal kept columns / thin); rounding and the gesvd retry path not modelled.',
+   technique='Coq proof by induction over the sweep with SVD as oracle hypothesis + oracle-tape correspondence', design='6 C03'),
 }
 NOT_YET = {}
 ALL = ['C%02d' % i for i in range(1, 21)]
